@@ -388,10 +388,12 @@ type shape struct {
 	L    int
 	keys []int // alphabet index per position
 	cmb  []int // combo per position
+	rot  int   // rotates the representation cycle of the mixed-repr policy (so that every
+	// representation, incl. the one of the FIRST occurrence of a key, varies over the shapes)
 }
 
 func decodeShape(L, idx, nKeys int) shape {
-	s := shape{L: L, keys: make([]int, L), cmb: make([]int, L)}
+	s := shape{L: L, keys: make([]int, L), cmb: make([]int, L), rot: idx % 7}
 	for p := 0; p < L; p++ {
 		d := idx % (nKeys * 3)
 		idx /= nKeys * 3
@@ -461,7 +463,7 @@ func (s shape) objects(policy string) ([]crypto.PublicKey, []keySpec) {
 			pks[p] = o
 			sp.Repr, sp.Obj = "decoded", 100+p
 		case "mixed-repr":
-			r := reprCycle[occ[k]%len(reprCycle)]
+			r := reprCycle[(occ[k]+s.rot)%len(reprCycle)]
 			occ[k]++
 			pks[p] = reprObj[k][r]
 			sp.Repr = r
